@@ -344,3 +344,106 @@ for kind in ('int', 'dec', 'float'):
             ],
             specs=[is_round_p], native=round30_native(precision), samples=arg_samples(kind),
             expect_min_obligations=3))
+
+
+# ---- float/double operands: IEEE special-value tables (finite arithmetic is A-FP, bounded) -----
+
+def sgn(x):
+    """sign of a number as -1/0/1 (infinities included)"""
+    if inf_sign(x) != 0:
+        return inf_sign(x)
+    return 1 if exact(x) > 0 else (-1 if exact(x) < 0 else 0)
+
+
+def is_zero(x):
+    return is_finite(x) and exact(x) == 0
+
+
+def beyond(a, b):
+    """an integer operand that cannot be promoted to xs:double (FOAR0002 is then legitimate)"""
+    return (is_int(a) and abs(a) >= 2 ** 1024) or (is_int(b) and abs(b) >= 2 ** 1024)
+
+
+def exactly_promoted(a, b):
+    """integer operands are promoted to double without rounding"""
+    return (not is_int(a) or abs(a) <= 2 ** 53) and (not is_int(b) or abs(b) <= 2 ** 53)
+
+
+FSPECS = [sgn, is_zero, beyond, exactly_promoted, trunc_div]
+FLOAT_PAIRS = [('float', 'float'), ('int', 'float'), ('float', 'int')]
+
+for k1, k2 in FLOAT_PAIRS:
+    CONTRACTS.append(Contract(
+        f'div.{k1}.{k2}', 'C06', token_method('2.0', 'div', 'evaluate'),
+        operands_case('2.0', 'div', k1, k2, compat=False),
+        post=[
+            ('never_raises_for_doubles', "returned or (beyond(op1, op2) and raised_code == 'FOAR0002')"),
+            ('result_is_double', "not returned or is_float(result)"),
+            ('nan_propagates', "beyond(op1, op2) or not (is_nan(op1) or is_nan(op2)) or is_nan(result)"),
+            ('zero_by_zero_and_inf_by_inf_are_nan',
+             "not ((is_zero(op1) and is_zero(op2)) or (inf_sign(op1) != 0 and inf_sign(op2) != 0)) or is_nan(result)"),
+            ('nonzero_by_zero_is_signed_infinity',
+             "not (is_zero(op2) and not is_nan(op1) and not is_zero(op1)) or "
+             "(not is_nan(result) and inf_sign(result) == sgn(op1) * (-1 if sign_bit(op2) else 1))"),
+            ('infinity_by_finite_is_signed_infinity',
+             "beyond(op1, op2) or not (inf_sign(op1) != 0 and is_finite(op2)) or "
+             "(not is_nan(result) and inf_sign(result) == inf_sign(op1) * (-1 if sign_bit(op2) else 1))"),
+            ('finite_by_infinity_is_signed_zero',
+             "beyond(op1, op2) or not (is_finite(op1) and inf_sign(op2) != 0) or "
+             "(is_zero(result) and sign_bit(result) == (sign_bit(op1) != sign_bit(op2)))"),
+        ],
+        specs=FSPECS, native=binary_native('2.0', 'div'), samples=mixed_pairs((k1, k2)), expect_min_obligations=7))
+    CONTRACTS.append(Contract(
+        f'idiv.{k1}.{k2}', 'C06', token_method('2.0', 'idiv', 'evaluate'),
+        operands_case('2.0', 'idiv', k1, k2),
+        post=[
+            ('nan_or_infinite_dividend_is_FOAR0002_or_FOAR0001',
+             "not (is_nan(op1) or is_nan(op2) or inf_sign(op1) != 0) or raised_code in ('FOAR0002', 'FOAR0001')"),
+            ('zero_divisor_is_FOAR0001',
+             "not (is_zero(op2) and is_finite(op1)) or raised_code == 'FOAR0001'"),
+            ('finite_by_infinity_is_zero',
+             "beyond(op1, op2) or not (is_finite(op1) and inf_sign(op2) != 0) or (returned and result == 0)"),
+            ('result_is_integer', "not returned or is_int(result)"),
+            ('only_coded_errors', "returned or raised_code is not None"),
+        ],
+        specs=FSPECS, native=binary_native('2.0', 'idiv'), samples=mixed_pairs((k1, k2)), expect_min_obligations=5))
+    CONTRACTS.append(Contract(
+        f'mod.{k1}.{k2}', 'C06', token_method('2.0', 'mod', 'evaluate'),
+        operands_case('2.0', 'mod', k1, k2),
+        post=[
+            ('never_raises_for_doubles', "returned or (beyond(op1, op2) and raised_code == 'FOAR0002')"),
+            ('nan_cases', "beyond(op1, op2) or not (is_nan(op1) or is_nan(op2) or inf_sign(op1) != 0 or is_zero(op2)) "
+                          "or is_nan(result)"),
+            ('finite_mod_infinity_is_dividend',
+             "not exactly_promoted(op1, op2) or not (is_finite(op1) and inf_sign(op2) != 0) or "
+             "(is_finite(result) and exact(result) == exact(op1))"),
+            ('sign_of_dividend_identity',
+             "not exactly_promoted(op1, op2) or not (is_finite(op1) and is_finite(op2) and not is_zero(op2)) or "
+             "(is_finite(result) and exact(result) == exact(op1) - exact(op2) * trunc_div(op1, op2))"),
+            ('zero_result_keeps_sign_of_dividend',
+             "not exactly_promoted(op1, op2) or not (is_finite(op1) and is_finite(op2) and not is_zero(op2)) or "
+             "not is_zero(result) or not is_float(op1) or sign_bit(result) == sign_bit(op1)"),
+            ('result_is_double', "not returned or is_float(result)"),
+        ],
+        specs=FSPECS, native=binary_native('2.0', 'mod'), samples=mixed_pairs((k1, k2)), expect_min_obligations=3))
+    for sym, name in (('+', 'plus'), ('-', 'minus'), ('*', 'times')):
+        CONTRACTS.append(Contract(
+            f'{name}.{k1}.{k2}', 'C06', token_method('2.0', sym, 'evaluate'),
+            operands_case('2.0', sym, k1, k2),
+            post=[
+                ('never_raises_for_doubles', "returned or (beyond(op1, op2) and raised_code == 'FOAR0002')"),
+                ('result_is_double', "not returned or is_float(result)"),
+                ('nan_propagates', "beyond(op1, op2) or not (is_nan(op1) or is_nan(op2)) or is_nan(result)"),
+            ] + ([('infinity_times_zero_is_nan',
+                   "beyond(op1, op2) or not ((inf_sign(op1) != 0 and is_zero(op2)) or (is_zero(op1) and inf_sign(op2) != 0)) "
+                   "or is_nan(result)"),
+                  ('infinity_times_nonzero_is_signed_infinity',
+                   "beyond(op1, op2) or not ((inf_sign(op1) != 0 or inf_sign(op2) != 0) and not is_nan(op1) and not is_nan(op2) and "
+                   "not is_zero(op1) and not is_zero(op2)) or inf_sign(result) == sgn(op1) * sgn(op2)")]
+                 if sym == '*' else
+                 [('opposite_infinities_are_nan',
+                   "not (inf_sign(op1) != 0 and inf_sign(op2) != 0 and inf_sign(op1) %s inf_sign(op2)) or is_nan(result)"
+                   % ('!=' if sym == '+' else '==')),
+                  ('infinity_absorbs_finite',
+                   "beyond(op1, op2) or not (inf_sign(op1) != 0 and is_finite(op2)) or inf_sign(result) == inf_sign(op1)")]),
+            specs=FSPECS, native=binary_native('2.0', sym), samples=mixed_pairs((k1, k2)), expect_min_obligations=4))
